@@ -554,6 +554,17 @@ func scenarios() []scenario {
 		scenario{"ciexyz/Lab both ways", par(
 			func() string { return fmt.Sprint(ciexyz.Color{X: 0.2, Y: 0.3, Z: 0.1}.ToLAB(ciexyz.D50)) },
 			func() string { return fmt.Sprint(ciexyz.ColorFromLAB(cielab.Color{L: 50, A: 20, B: -30}, ciexyz.D65)) })},
+		scenario{"ciexyz/two adaptations between the same pair of white points", par(
+			func() string {
+				return fmt.Sprint(ciexyz.AdaptBetweenXYYWhitePoints(ciexyy.D65, ciexyy.D50).Apply(ciexyz.Color{X: 0.3, Y: 0.4, Z: 0.5}))
+			},
+			func() string {
+				return fmt.Sprint(ciexyz.AdaptBetweenXYYWhitePoints(ciexyy.D65, ciexyy.D50).Apply(ciexyz.Color{X: 0.3, Y: 0.4, Z: 0.5}))
+			},
+			func() string {
+				return fmt.Sprint(ciexyz.AdaptBetweenXYZWhitePoints(ciexyz.D65, ciexyz.D50).Apply(ciexyz.Color{X: 0.1, Y: 0.2, Z: 0.3}))
+			})},
+		scenario{"convert/two conversions in the same direction", par(convert(color.NRGBA{R: 200, G: 100, B: 50, A: 255}, true), convert(color.NRGBA{R: 20, G: 200, B: 90, A: 128}, true))},
 		scenario{"convert/srgb->prophoto vs prophoto->srgb", par(convert(color.NRGBA{R: 200, G: 100, B: 50, A: 255}, true), convert(color.NRGBA{R: 20, G: 200, B: 90, A: 128}, false))},
 		scenario{"icc/two ReadProfile, same profile ID, different flags and intent", par(readICC(iccWithID(1, 0)), readICC(iccWithID(2, 3)))},
 		scenario{"icc/ReadProfile of junk: wrong signature and a tag table cut short", par(readICC(iccJunk(false)))},
